@@ -92,7 +92,12 @@ def chopper_cases(draw, with_pulses=False):
     if case["int_freq"]:
         case["fp"] = float(max(1, round(fp)))
     if with_pulses:
-        case["npulses"] = draw(st.integers(1, 4))
+        case["npulses"] = draw(st.integers(1, 6))
+        # half of the expansions with the disk at its reference orientation: there the docstring's "as many
+        # full turns as needed to cover npulses" fixes which openings must be present (seeded/C10-s13)
+        if draw(st.booleans()):
+            case["bp"] = 0.0
+            case["phase"] = 0.0
         # Chopper.from_disk_chopper adds 1/pulse_frequency to the offsets: keep one frequency unit
         case["f_unit"] = case["fp_unit"]
     return case
@@ -273,6 +278,21 @@ def check_expansion(case):
                                 f"{float(c.max()) - float(o.min())!r} s, {case['npulses']} pulse periods are {need!r} s "
                                 f"(rotation period {period!r} s)")
     labs.append(f"span_rotations:{min(int(span), 40)}")
+    # "no opening inside the covered time span is missing" for the expansion: the docstring promises to
+    # "rotate the chopper for as many full turns as needed to cover npulses".  With the disk at its reference
+    # orientation (beam position and phase 0) and every slit written inside [0, 2 pi], rotation k occupies
+    # exactly [k T, (k+1) T], so every opening that lies inside [0, npulses pulse periods] must be reported
+    # (the package reports rotations -1 .. n-1 with n T >= npulses / f_pulse).  For other orientations the
+    # reported window is shifted by (beam position + phase) / omega and the statement fixes no origin.
+    if ref["bp"] == 0.0 and ref["phase"] == 0.0 and all(0.0 <= b < e <= disk.TWO_PI for b, e in ref["slits"]):
+        labs.append("reference-orientation")
+        tol = 1e-9 * period
+        for to, tc, _ in disk.true_openings(ref["omega"], 0.0, 0.0, ref["slits"], 0.0, need, -1e-6 * period):
+            if not np.any(np.abs(o - to) <= tol):
+                raise Violation("missing-in-pulses",
+                                f"Chopper.from_disk_chopper(npulses={case['npulses']}): the opening [{to!r}, {tc!r}] s lies "
+                                f"inside the {case['npulses']} pulse periods [0, {need!r}] s but is not reported "
+                                f"(rotation period {period!r} s)", {"reported_open": sorted(o.tolist())})
     if abs(float(cc.distance.to(unit='m').value) - 5.0) > 1e-12:
         raise Violation("distance", f"distance {cc.distance.value!r}, axle is 5 m from the origin")
     return labs, nt
